@@ -36,7 +36,7 @@ ALL = list(itertools.product(range(5), repeat=3))
 
 
 def gen_cases(tier, seed):
-    n = 64 if tier == "quick" else 18000
+    n = 160 if tier == "quick" else 18000
     rng0 = bases.rng_for("C05", seed, tier, "orders")
     pool = []
     while len(pool) < 2 * n + 8:
